@@ -1,7 +1,7 @@
 #!/bin/bash
 # usage: seedimport.sh <PROP> <n-in-round2: 1|2>   imports /tmp/seed2/out_<PROP>/<n> as /verif/seeded/<PROP>-<n+2>, confirms and runs detection
 set -u
-p=$1; n=$2; m=$((n+2)); src=/tmp/seed2/out_$p/$n; id=$p-$m
+p=$1; n=$2; root=${3:-/tmp/seed2}; m=$((n+2)); src=$root/out_$p/$n; id=$p-$m
 mkdir -p /verif/seeded/$id
 cp $src/patch.diff /verif/seeded/$id/patch.diff
 cp $(ls $src/*_test.go | head -1) /verif/seeded/$id/demo_test.go
